@@ -181,6 +181,18 @@ def make_fix(fmt, fn):
         return None
 
 
+def laid_out(arr, rng):
+    """the same array (shape and elements) in another memory layout: Fortran order, or a strided view"""
+    k = rng.randrange(4)
+    if arr.ndim >= 2 and k == 0:
+        return np.asfortranarray(arr)
+    if arr.ndim >= 2 and k == 1:
+        return np.ascontiguousarray(arr.swapaxes(0, arr.ndim - 1)).swapaxes(0, arr.ndim - 1)
+    if arr.ndim >= 1 and k == 2 and arr.size:
+        return np.repeat(arr, 2, axis=arr.ndim - 1)[..., ::2]
+    return arr
+
+
 def array_call(conv, arr):
     try:
         out = conv(arr)
@@ -203,7 +215,7 @@ def conv_traces(fmt, xs, rng, label, isolate=True, apis=("np", "fix")):
     if not has_np:
         apis = tuple(a for a in apis if a != "np")
     conv = NumpyFloatToFixConverter(bool(s), n, f) if has_np else None
-    rnp = array_call(conv, np.array(xs, dtype=np.float64).reshape(shape))[0] if has_np else None
+    rnp = array_call(conv, laid_out(np.array(xs, dtype=np.float64).reshape(shape), rng))[0] if has_np else None
     fx = make_fix(fmt, float_to_fix)
     rfx = [call(fx, x) for x in xs] if fx else None
     X = [enc_dbl(x) for x in xs]
@@ -260,6 +272,11 @@ def inv_traces(fmt, vs, label, isolate=True, apis=("np", "fix")):
         arr = np.array(vs, dtype=DTYPES[(s, n)])
         fl, fl_arr = array_call(NumpyFixToFloatConverter(f), arr)
         if fl_arr is not None:
+            # (back through the array converter in another shape and memory layout; the flattened order is the same)
+            if fl_arr.size >= 4 and fl_arr.size % 2 == 0:
+                fl_arr = np.asfortranarray(fl_arr.reshape(2, fl_arr.size // 2))
+            elif fl_arr.size:
+                fl_arr = np.repeat(fl_arr, 2)[::2]
             bk, _ = array_call(NumpyFloatToFixConverter(bool(s), n, f), fl_arr)
         else:
             bk = fl
@@ -319,6 +336,10 @@ def formats(chk, rng):
                 keep = {0, 1, 2, n // 2, n - 2, n - 1, n, n + 1, n + 4, 25, 30, 40}
                 fr = [f for f in fr if f in keep or rng.random() < 0.5]
             out += [(s, n, f) for f in fr]
+            # a negative number of fractional bits: the least significant integer bits are dropped (the scalar and
+            # array converters take any integer; the deprecated variants refuse)
+            if n <= 32:
+                out += [(s, n, f) for f in (-1, -2, -5)]
     # widths only the scalar functions support (no array events): below, at and beyond a double's 53 bits
     for n in chk.pick((12, 24, 48, 60), (9, 12, 20, 24, 31, 33, 40, 48, 53, 60)):
         for s in (1, 0):
@@ -329,7 +350,7 @@ def formats(chk, rng):
 def nontrivial(fmt, x):
     """truncation or saturation has something to do: the scaled value is not an integer inside the range"""
     s, n, f = fmt
-    q = Fraction(x) * 2 ** f
+    q = Fraction(x) * Fraction(2) ** f
     lo = -(2 ** (n - 1)) if s else 0
     hi = 2 ** (n - 1) - 1 if s else 2 ** n - 1
     return q.denominator != 1 or q < lo or q > hi
